@@ -191,3 +191,66 @@ impl Drop for Arena {
 pub fn heap_exact(bytes: &[u8]) -> Box<[u8]> {
     bytes.to_vec().into_boxed_slice()
 }
+
+
+/// Input placement front end: guard pages (default) or exact-size heap allocations (Miri, ASan
+/// and valgrind flavours, where the instrument's own red zones are the monitor).
+pub struct Placer {
+    guard: Option<Arena>,
+    heap: Vec<u8>,
+}
+
+#[derive(Clone, Copy, Debug, PartialEq, Eq)]
+pub enum Placement {
+    End,
+    Start,
+    MidA,
+    MidB,
+}
+
+pub const PLACEMENTS: [Placement; 4] = [Placement::End, Placement::Start, Placement::MidA, Placement::MidB];
+
+impl Placer {
+    pub fn new(max_len: usize, heap_mode: bool) -> Placer {
+        let heap_mode = heap_mode || cfg!(miri);
+        Placer {
+            guard: if heap_mode { None } else { Some(Arena::new(max_len)) },
+            heap: Vec::new(),
+        }
+    }
+
+    pub fn is_heap(&self) -> bool {
+        self.guard.is_none()
+    }
+
+    pub fn place(&mut self, bytes: &[u8], p: Placement) -> &[u8] {
+        match &mut self.guard {
+            Some(a) => match p {
+                Placement::End => a.place_end(bytes, 0xA5),
+                Placement::Start => a.place_start(bytes, 0x5A),
+                Placement::MidA => a.place_mid(bytes, 13, 0x00),
+                Placement::MidB => a.place_mid(bytes, 37, 0xFF),
+            },
+            None => {
+                // exact-size allocation; the "mid" placements embed the input between fillers
+                // inside one allocation (neighbourhood independence), the others are exact
+                match p {
+                    Placement::End | Placement::Start => {
+                        let mut v = Vec::with_capacity(bytes.len());
+                        v.extend_from_slice(bytes);
+                        self.heap = v;
+                        &self.heap[..]
+                    }
+                    Placement::MidA | Placement::MidB => {
+                        let (off, fill) = if p == Placement::MidA { (13, 0x00) } else { (37, 0xFF) };
+                        let mut v = vec![fill; off];
+                        v.extend_from_slice(bytes);
+                        v.extend(std::iter::repeat(fill).take(19));
+                        self.heap = v;
+                        &self.heap[off..off + bytes.len()]
+                    }
+                }
+            }
+        }
+    }
+}
